@@ -624,6 +624,32 @@ pub fn run(ctx: &mut Ctx) {
                 }
             }
         }
+        // near-duplicates of earlier inputs later in the same batch: the exact text again, all blanks
+        // removed, a blank inserted somewhere (often splitting a token), a letter's case flipped
+        if i % 3 == 0 {
+            for _ in 0..rng.range(1, 3) {
+                let src = seq[rng.below(seq.len())].clone();
+                let cs: Vec<char> = src.chars().collect();
+                let (v, nm) = match rng.below(4) {
+                    0 => (src.clone(), "duplicate"),
+                    1 => (cs.iter().filter(|c| **c != ' ').collect::<String>(), "blanks-removed"),
+                    2 => {
+                        let mut v = cs.clone();
+                        v.insert(rng.below(cs.len() + 1), ' ');
+                        (v.into_iter().collect::<String>(), "blank-inserted")
+                    }
+                    _ => {
+                        let mut v = cs.clone();
+                        if let Some(p) = (0..v.len()).filter(|p| v[*p].is_ascii_alphabetic()).nth(rng.below(4)) {
+                            v[p] = if v[p].is_ascii_lowercase() { v[p].to_ascii_uppercase() } else { v[p].to_ascii_lowercase() };
+                        }
+                        (v.into_iter().collect::<String>(), "case-flipped")
+                    }
+                };
+                seq.push(v);
+                names.push(nm.to_string());
+            }
+        }
         check_seq(ctx, f, &seq, &names, "random-sequences");
         if i % 50 == 0 {
             ctx.report.sample(|| J::obj().set("format", f.name()).set("sequence", J::Arr(seq.iter().map(J::from).collect())));
